@@ -23,6 +23,7 @@ ASSUMPTIONS = [
     'schedules: lowest-source-id-first order with up to sched_deviations arbitrary deviations',
     'back-pressure cases: the first two socket sends of A after establishment accept 1, n/2 or n-1 of the n octets offered',
 ]
+SMALL_LIMIT = 30000          # real-CHUNK_SIZE cases need lengths above 10240 to be replayable
 REQUIRED_CLASSES = {'all': ['one-seg', 'multi-seg']}
 QUICK_VALIDATE = 8
 
@@ -36,6 +37,7 @@ def cases(tier):
             k = (3 if na + nb <= 2 else 2) if tier == 'quick' else (4 if na + nb <= 2 else 3)
             out.append(dict(na=na, nb=nb, chunk='big', dev=0, kseg=k, steps=400))
     out.append(dict(na=1, nb=0, chunk='real', dev=0, kseg=2, steps=400))
+    out.append(dict(na=1, nb=0, chunk='real', dev=0, kseg=1, steps=600, bp=2))
     # back-pressure: the socket accepts only part of what is offered on the first sends after establishment
     out.append(dict(na=1, nb=0, chunk='big', dev=0, kseg=2, steps=400, bp=2))
     out.append(dict(na=1, nb=1, chunk='big', dev=0, kseg=2, steps=400, bp=1, rx='msg'))
